@@ -24,6 +24,7 @@ def parseOEv (s : String) : Option OEv :=
 def flagName : Flag → String
   | .badOrder => "badOrder" | .unsoundFree => "unsoundFree" | .stopWhileLocked => "stopWhileLocked"
   | .staleOpen => "staleOpen" | .rebuiltDuringFollow => "rebuiltDuringFollow" | .wrongInstance => "wrongInstance"
+  | .createAfterFree => "createAfterFree"
 
 def phaseName : Phase → String
   | .idle => "idle" | .lockedNoLog => "lockedNoLog" | .building => "building"
